@@ -3,7 +3,7 @@ from ..models import make_interp
 from ..tmplcheck import family_results, report
 from ._parser import table_check
 
-FLOORS = {"C06.Q.searched-stream-is-this-operations": 2, "C06.D1.deref-shape": 40, "C06.D.prop-passthrough": 80, "C06.D.field-verbatim": 60, "C06.D1.normaliser-rows": 30}
+FLOORS = {"C06.D4.memory-operand-of-every-line-kind": 4, "C06.Q.searched-stream-is-this-operations": 2, "C06.D1.deref-shape": 40, "C06.D.prop-passthrough": 80, "C06.D.field-verbatim": 60, "C06.D1.normaliser-rows": 30}
 
 
 def run(ctx) -> None:
@@ -44,3 +44,12 @@ def run(ctx) -> None:
     # Q: the regex is searched in the stream of this operation's own listing (nothing carried over from an earlier operation)
     from ._matchrules import stream_per_run
     stream_per_run(ctx, "C06.Q.searched-stream-is-this-operations")
+    # Q2: the regex searched is the one generated while the rule's own config was in force (generated in the constructor,
+    # right after the rule's config was loaded; matching reuses it)
+    from ._matchrules import compiled_with_own_config
+    compiled_with_own_config(ctx, "C06.Q.compiled-with-own-config")
+    # D4: on whole lines (token templates): every printed line kind that carries a memory operand - plain, with comment and
+    # <symbol>, data16-prefixed, memory operand in the middle - hands that operand to patterns in the form the compiled
+    # $deref expects
+    from .. import shapes as _sh
+    _sh.line_record_rule(ctx, _mkw(ctx.p), "C06.D4.memory-operand-of-every-line-kind", only_memory_operands=True)
